@@ -656,7 +656,9 @@ func TestVerifC25(t *testing.T) {
 	rep.Bounds["marker_positions"] = len(positions)
 	rep.Bounds["open_cases_counted"] = total.notes
 	rep.Sample(map[string]any{"case": (&c25Case{slots: slots, split: splits[len(splits)-1], masks: [2]uint32{0b101101, 0b101101}, lo: 1, hi: c25Unset, fromEnd: true, limit: 2, nfun: 3, handlerOrder: true}).String()})
-	rep.AddCounts(total.calls, total.calls, total.calls, total.nontrivial)
+	// ---- family "storage bucket order": two-tag keys, every arrangement of the rows of a time bucket
+	pCalls, pNontrivial := c25PermFamily(rep, conv)
+	rep.AddCounts(total.calls+pCalls, total.calls+pCalls, total.calls+pCalls, total.nontrivial+pNontrivial)
 	if err := rep.Write(); err != nil {
 		t.Fatal(err)
 	}
